@@ -31,8 +31,9 @@ RULE = ('synthetic peptide FASTAs whose multi-entry headers are drawn from the l
     'distinct by canonical JSON')
 ASSUMPTIONS = [
     'header entries are generated in the canonical field order the tool itself prints',
-    'database choice is modelled for order lists of single sources and groups; with '
-    'wildcards or combination entries in --order-source only conservation is checked',
+    'database choice is modelled for order lists of single sources, groups and wildcard '
+    'patterns (first pattern of the order that claims the source set of an entry); '
+    'combination entries (A-B) in --order-source are not generated',
 ]
 BUDGET = {'quick': 600, 'thorough': 20000}
 AA = 'ACDEFGHIKLMNPQRSTVWY'
@@ -178,11 +179,16 @@ def strategy_(draw, tier):
             names.append(n)
     order = d.shuffle(names)[:d.randint(0, len(names))] if d.chance(0.7) else None
     wildcard = None
-    if tier != 'quick' and order and d.chance(0.2):
-        wildcard = d.choice(order) + '-' + d.choice(['*', '+'])
-        order = [wildcard if x == wildcard.split('-')[0] and d.chance(0.5) else x for x in order]
-        if wildcard not in order:
-            order.append(wildcard)
+    if order and d.chance(0.2):
+        # one or two wildcard patterns (X-* : X with or without other sources, X-+ : X with at
+        # least one other source); two patterns overlap on peptides that carry both bases
+        bases = d.sample(order, min(len(order), d.choice([1, 1, 2])))
+        wildcard = [b + '-' + d.choice(['*', '+']) for b in bases]
+        for w in wildcard:
+            b = w.split('-')[0]
+            order = [w if x == b and d.chance(0.5) else x for x in order]
+            if w not in order:
+                order.insert(d.randint(0, len(order)), w)
     add_split = []
     if len(names) >= 2 and d.chance(0.4):
         for _ in range(d.randint(1, 2)):
@@ -249,17 +255,39 @@ def model_split(case, ref, gvf_sources, src_of):
         if n not in levels:
             levels.append(n)
     lv = {s: i for i, s in enumerate(levels)}
+    singles = [x for x in levels if not x.endswith(('-*', '-+'))]
+
+    def pattern_of(ss):
+        """ the first entry of the order that claims the source set: a single source claims
+        the set that holds only it, X-* claims X with any others, X-+ X with >= 1 other.
+        (The tool does not expand a pattern to X plus ALL other sources; such a set does not
+        occur here: it would need the three internal sources and every GVF in one entry.) """
+        for ent in levels:
+            if ent.endswith(('-*', '-+')):
+                b = ent[:-2]
+                others = len(ss - {b})
+                if b in ss and others >= (0 if ent.endswith('*') else 1) and \
+                        others < len(singles) - 1:
+                    return ent
+            elif ss == {ent}:
+                return None
+        return None
     res = {}
     for seq, entries in case['peptides']:
         best = None
         for e in entries:
             ss = entry_sources(e, ref, src_of, group)
-            key = (len(ss), sorted(lv[x] for x in ss))
+            pat = pattern_of(ss)
+            if pat:
+                key = (1, [lv[pat]])
+                eff = (2, pat[:-2] + ('-ALL' if pat.endswith('*') else '-PLUS'), set())
+            else:
+                key = (len(ss), sorted(lv[x] for x in ss))
+                eff = (len(ss), '-'.join(sorted(ss, key=lambda x: lv[x])), ss)
             if best is None or key < best[0]:
-                best = (key, ss)
-        ss = best[1]
-        name = '-'.join(sorted(ss, key=lambda x: lv[x]))
-        if len(ss) <= o['max_groups']:
+                best = (key, eff)
+        size, name, ss = best[1]
+        if size <= o['max_groups']:
             res[seq] = name
         else:
             db = 'Remaining'
@@ -305,7 +333,7 @@ def prop(case, ctx):
     fasta = d/'variant.fasta'
     fasta.write_text(''.join(f">{' '.join(e)}\n{s}\n" for s, e in case['peptides']))
     inp = {s: list(e) for s, e in case['peptides']}
-    modelled = not o.get('wildcard')
+    modelled = True
     # ---------------- split
     a = argparse.Namespace(command='splitFasta', gvf=paths, variant_peptides=fasta,
         novel_orf_peptides=None, alt_translation_peptides=None, output_prefix=d/'split'/'db',
@@ -407,6 +435,27 @@ def prop(case, ctx):
                 expm.items()}:
             return out.fail('mergeFasta of two overlapping FASTAs is not the union of sequences '
                 'with the union of entries', 'merge-union')
+        # --dedup-header: entries that differ in their trailing index only are duplicates; of
+        # each such group exactly one entry (an entry of the input) stays, nothing else goes
+        am.dedup_header = True
+        am.output_path = d/'merged3.fasta'
+        with quiet():
+            mod('merge_fasta').merge_fasta(am)
+        merged3, dups = read_fasta_entries(d/'merged3.fasta')
+
+        def unindexed(e):
+            return e.rsplit('|', 1)[0]
+        if dups or set(merged3) != set(expm):
+            return out.fail('mergeFasta --dedup-header changed the set of sequences',
+                'merge-dedup-seqs')
+        for s_, ents in merged3.items():
+            keys = [unindexed(e) for e in ents]
+            if len(set(keys)) != len(keys) or set(keys) != {unindexed(e) for e in expm[s_]} \
+                    or not set(ents) <= set(expm[s_]):
+                return out.fail(f'mergeFasta --dedup-header: entries of {s_} are {ents}, input '
+                    f'entries {expm[s_]}', 'merge-dedup-entries')
+        if any(len({unindexed(e) for e in v}) < len(set(v)) for v in expm.values()):
+            out.label('dedup_header_removed_entries')
     # ---------------- encode (with decoys)
     enc_in = d/'enc_in.fasta'
     recs = [(' '.join(e), s) for s, e in peps]
@@ -473,9 +522,12 @@ def prop(case, ctx):
                 f'{h!r}', 'encode-restore', detail=dict(order=o['decoy_order'], decoy=dec))
     # ---------------- summarize vs split with max groups = all
     if modelled:
+        # summarizeFasta has no wildcard patterns: the comparison uses the order without them
+        plain = [x for x in (o['order'] or []) if not x.endswith(('-*', '-+'))]
         asum = argparse.Namespace(command='summarizeFasta', gvf=paths, variant_peptides=fasta,
             novel_orf_peptides=None, alt_translation_peptides=None, output_path=d/'sum.txt',
-            output_image=None, order_source=a.order_source, group_source=a.group_source,
+            output_image=None, order_source=','.join(plain) if plain else None,
+            group_source=a.group_source,
             ignore_missing_source=False, plot_normal_scale=False, plot_log_scale=False,
             cleavage_rule='trypsin', cleavage_exception=None, **ref_ns(d))
         try:
@@ -492,7 +544,7 @@ def prop(case, ctx):
             if int(f[1]) != sum(int(x) for x in f[2:]):
                 return out.fail(f'summary row {f[0]}: n_total {f[1]} is not the sum of the '
                     'per-miscleavage counts', 'summarize-row')
-        big = dict(o, max_groups=99, additional=[])
+        big = dict(o, max_groups=99, additional=[], order=plain or None)
         exp_all, _ = model_split(dict(case, opts=big), ref, gvf_sources, src_of)
         sizes = {}
         for s, key in exp_all.items():
